@@ -5,6 +5,8 @@ import (
 	"go/token"
 	"go/types"
 
+	"golang.org/x/tools/go/ssa"
+
 	"cadcheck/core"
 )
 
@@ -123,7 +125,7 @@ func shiftGuardRule(r *core.Run, rule string, pick func(key string) bool) {
 func c14(r *core.Run) {
 	r.Explanation = "Decided clauses: (R1) shift methods of signed types raise exactly {NegativeShift}, of unsigned and Word types nothing; every native shift with a signed count and every big.Int Lsh/Rsh of a signed type " +
 		"is dominated by the negative-count test raising NegativeShiftError; (R2) BitwiseOr/Xor/And/LeftShift/RightShift of sibling widths agree modulo the family parameters — " +
-		"in particular the `>= W` shift-amount test, toTwosComplement(…, W) and truncate(…, W/wordsize) use the type's own width (a literal that is the width of one sibling but not of the other is reported)."
+		"(R3) the two's-complement sign is extracted from a byte string of the type's full width; in particular the `>= W` shift-amount test, toTwosComplement(…, W) and truncate(…, W/wordsize) use the type's own width (a literal that is the width of one sibling but not of the other is reported)."
 	r.NotDecided = "the two's-complement result values (e.g. arithmetic right shift of negative big values by huge counts)."
 	signed := append(append([]string{}, signedNative...), signedBig...)
 	unsigned := append(append(append(append([]string{}, unsignedNative...), unsignedBig...), wordNative...), wordBig...)
@@ -155,4 +157,28 @@ func c14(r *core.Run) {
 	r.Floor("R1.negshift", 30)
 	siblingRule(r, "R2.siblings", allFamilies, func(g string) bool { return isGroupOf(g, bitwiseMethods...) })
 	r.Floor("R2.siblings", 30)
+
+	// R3 sign extraction uses the full width: a two's-complement byte string handed to BigEndianBytesToSignedBigInt must have the
+	// type's fixed length; big.Int.Bytes() is the *minimal* byte string, whose top bit is not the sign bit of the type
+	w := r.W
+	isSigned := funcOf(mod+"/values", "BigEndianBytesToSignedBigInt")
+	n := 0
+	for _, fn := range w.SrcFuncs() {
+		if fn.Parent() != nil {
+			continue
+		}
+		for _, c := range core.CallsTo(fn, true, isSigned) {
+			n++
+			arg := core.Unwrap(c.Common().Args[0])
+			minimal := false
+			if call, ok := arg.(*ssa.Call); ok {
+				if o := core.Callee(call); o != nil && o.Pkg() != nil && o.Pkg().Path() == "math/big" && o.Name() == "Bytes" {
+					minimal = true
+				}
+			}
+			r.Check(!minimal, "R3.signwidth", core.SSAKey(fn)+" -> BigEndianBytesToSignedBigInt", posOf(c), "argument is not the minimal byte string of a big.Int",
+				"the sign is read from big.Int.Bytes(), whose top bit is the top bit of the most significant non-zero byte, not the sign bit of the type: e.g. Int128(128) << 0 yields -128")
+		}
+	}
+	r.Floor("R3.signwidth", 2)
 }
